@@ -420,6 +420,7 @@ def clean(tree):
     """value tree -> what the library's JSON should show (drop generator bookkeeping)"""
     import copy
     t = copy.deepcopy(tree)
+    t = {k: t[k] for k in ("dovi_profile", "el_type", "header", "rpu_data_mapping", "vdr_dm_data", "remaining") if k in t}
     m = t.get("rpu_data_mapping")
     if m:
         for c in m["curves"]:
